@@ -91,6 +91,17 @@ func (c *Conversation) lastMessage(msg MessagePlaintext, opaque ...interface{}) 
 	c.resend.later(msg, opaque...)
 }
 
+// rememberLastMessage keeps msg as the only message that may be resent if the
+// peer reports it unreadable. Messages without user text (heartbeats, TLV
+// carriers) are never resent and leave the remembered message in place.
+func (c *Conversation) rememberLastMessage(msg MessagePlaintext) {
+	if c.resend.retransmitting || len(msg) == 0 {
+		return
+	}
+	c.resend.clear()
+	c.resend.later(msg)
+}
+
 func (c *Conversation) updateMayRetransmitTo(f retransmitFlag) {
 	c.resend.mayRetransmit = f
 }
